@@ -102,6 +102,22 @@ def run(prog, R):
             sinks = forward_sinks(body, t.dest.local, follow_refs=True, through=PROPAGATORS)
             ret = any(k == 'ret' and not via for (k, n, i, via) in sinks)
             drops = [n for (k, n, i, via) in sinks if k == 'drop' and not via]
+            # a drop on the arm of a match where the value is known to be Ok (`match r { Ok(false) => {}, other => return other }`)
+            # discards no error
+            if drops:
+                ok_arm = set()
+                for a_ in body.cfg.reachable:
+                    tt_ = body.blocks[a_].term
+                    if tt_.k == 'switch' and not tt_.discr.is_const:
+                        for r_ in roots_of(body, tt_.discr):
+                            if r_[0] == 'discr' and r_[1].rv.place.local == t.dest.local and not [q for q in r_[1].rv.place.proj if q['k'] != 'deref']:
+                                for v_, tg_ in tt_.targets:
+                                    if v_ == 0:
+                                        ok_arm.add(tg_)
+                def on_ok_arm(term_):
+                    bx = [x_ for x_ in body.cfg.reachable if body.blocks[x_].term is term_]
+                    return bool(bx) and any(body.cfg.dominates(o_, bx[0]) for o_ in ok_arm)
+                drops = [n for n in drops if not on_ok_arm(n)]
             swallow = [n for (k, n, i, via) in sinks if k == 'call' and not via and n.callee and n.callee.path in SWALLOW and not is_lossless_map_err(n, body)]
             ok = ret and not drops and not swallow
             why = []
@@ -178,7 +194,9 @@ def fill_guard_rule(prog, R, f):
         return
     ent = ent[0]
     init = Path()
-    init.env['#buf'] = ent.env.get('#buf', 0)
+    # inside the loop the buffer is another one than at the entry: its length is (entry length + bytes read so far), not the entry length
+    LOOPV = ent.env.get('#buf', 0) + 1000
+    init.env['#buf'] = LOOPV
     paths = ev.run(h, stops={h}, init=init)
     back = [p for p in paths if p.end == ('stop', h)]
     E = Aff.sym(('len', ('buffer', ent.env.get('#buf', 0))))
@@ -247,6 +265,9 @@ def fill_guard_rule(prog, R, f):
             X = D + Aff.sym(caps[0])
             used = [k[1] for k in X.t if isinstance(k, tuple) and k[0] == 'H']
             Xc = X.subst(sub) if all(closed.get(k, 0) is not None for k in used) else None
+            if Xc is not None:
+                # the length of the buffer asked inside the loop (`reader.buf_len()`, `reader.buffer().len()` in the condition)
+                Xc = Xc.subst(lambda sy: (E + S) if (isinstance(sy, tuple) and sy[0] == 'len' and isinstance(sy[1], tuple) and sy[1][0] == 'buffer' and isinstance(sy[1][1], int) and sy[1][1] >= LOOPV) else None)
             if Xc is None:
                 detail = 'the compared quantity depends on a counter whose recurrence is not "+= bytes read": %s' % [f.names.get(k, '_%d' % k) for k in used if closed.get(k, 0) is None]
                 continue
@@ -255,6 +276,28 @@ def fill_guard_rule(prog, R, f):
             detail = 'exit when %r - capacity >= %d with %r <= (entry length + bytes read) + %d: buffer full on this exit: %s' % (Xc, m, Xc, Xc.c, ok)
         R.add('FILL-7', f, 'full-exit-implies-full-buffer', ok, where, detail, undecided=(not ok) and detail.startswith('no comparison'))
     R.floor('FILL-7', 1)
+    # FILL-6 (seed C06-r5b): what the refill returns is the number of bytes it added - its callers take "0" for "nothing more
+    # to read" (`while fill_buf(..)? > 0`); the fill level of the buffer is 0 only for an empty buffer
+    nret = 0
+    for p in paths:
+        r0 = p.env.get(0)
+        if p.end[0] != 'return' or getattr(r0, 'variant', None) != 'Ok' or not r0.fields or not isinstance(r0.fields[0], Aff):
+            continue
+        v = r0.fields[0]
+        used = [k[1] for k in v.t if isinstance(k, tuple) and k[0] == 'H']
+        if any(closed.get(k, 0) is None for k in used):
+            continue
+        vc = v.subst(lambda sym: (closed[sym[1]] if sym[1] in closed else (ent.env.get(sym[1]) if isinstance(ent.env.get(sym[1]), Aff) else None)) if (isinstance(sym, tuple) and sym[0] == 'H') else None)
+        vc = vc.subst(lambda sy: (E + S) if (isinstance(sy, tuple) and sy[0] == 'len' and isinstance(sy[1], tuple) and sy[1][0] == 'buffer' and isinstance(sy[1][1], int) and sy[1][1] >= LOOPV) else None)
+        if vc == S:
+            verdict = True
+        elif vc == E + S:
+            verdict = False
+        else:
+            verdict = None
+        nret += 1
+        R.add('FILL-6', f, 'returns-the-bytes-added#%d' % nret, verdict is True, where,
+              'value returned on success = %r (required: the bytes read in this call; the length of the buffer is "entry length + bytes read")' % (vc,), undecided=verdict is None)
 
 
 def fill_count_rules(prog, R, refill):
